@@ -40,6 +40,11 @@ ArgVal(arg, row) ==
                          ELSE LET x == row[arg.c] IN IF IsNum(x) THEN NumV(x.v * arg.a + arg.b * Scale) ELSE Missing
     [] arg.k = "add2" -> IF ~Has(row, arg.c) \/ ~Has(row, arg.d) THEN Missing
                          ELSE LET x == row[arg.c]  y == row[arg.d] IN IF IsNum(x) /\ IsNum(y) THEN NumV(x.v + y.v) ELSE Missing
+    \* affine expression over a column or nested path: base * an / ad + b   (o.v*2, o.v+100, v*1.5, o.v*2+1)
+    [] arg.k = "aff"  -> LET x == IF "p" \in DOMAIN arg
+                                    THEN (IF Has(row, Head(arg.p)) /\ HasPath(row[Head(arg.p)], Tail(arg.p)) THEN ColPath(row, arg.p) ELSE Missing)
+                                    ELSE (IF Has(row, arg.c) THEN row[arg.c] ELSE Missing) IN
+                         IF IsNum(x) THEN NumV((x.v * arg.an) \div arg.ad + arg.b * Scale) ELSE Missing
     [] arg.k = "star" -> Null
 
 \* parameter handed to Agg!Ok: for first/last value 1 = "an absent input may also count as NULL" (expression / path arguments)
